@@ -539,6 +539,10 @@ func (db *Database) limitResults(results []SearchResult, limit int) []SearchResu
 
 // performFuzzySearch conducts fuzzy search on the database
 func (db *Database) performFuzzySearch(query string, options SearchOptions) []SearchResult {
+	// Surrounding whitespace is not part of the query (every other stage tokenises it away, and
+	// the result cache files "z" and " z" under one key): the matcher must not see it either.
+	query = strings.TrimSpace(query)
+
 	// Create search targets combining command and description
 	targets := make([]string, len(db.Commands))
 	var builder strings.Builder
